@@ -42,6 +42,20 @@ type obEvidence struct {
 }
 
 func notClaimed(cfg *CheckCfg, name string) (string, bool) {
+	// functions for which only some kinds of obligation are claimed (e.g. a division sweep over large bodies)
+	if i := strings.Index(name, "#"); i > 0 {
+		if frags, ok := cfg.ClaimOnly[name[:i]]; ok {
+			claimed := false
+			for _, f := range frags {
+				if strings.Contains(name[i:], f) {
+					claimed = true
+				}
+			}
+			if !claimed {
+				return cfg.ClaimOnlyWhy, true
+			}
+		}
+	}
 	for k, why := range cfg.NotClaimed {
 		if k == name {
 			return why, true
@@ -119,7 +133,17 @@ func cmdCheck(args []string) int {
 	smtDir, _ := os.MkdirTemp("", "gvc-smt-"+id)
 	defer os.RemoveAll(smtDir)
 	tsolve := time.Now()
-	solveAll(c.Obs, solveOpts{TimeoutS: timeout, Seed: seed, Dir: smtDir, Workers: 10})
+	// obligations that a claim_only entry excludes are not sent to the solvers (they are counted in the evidence as generated,
+	// not claimed, not decided)
+	var toSolve []*Obligation
+	for _, ob := range c.Obs {
+		if why, skip := notClaimed(&cfg, ob.Name); skip && why == cfg.ClaimOnlyWhy && cfg.ClaimOnlyWhy != "" {
+			ob.Result = "not-attempted"
+			continue
+		}
+		toSolve = append(toSolve, ob)
+	}
+	solveAll(toSolve, solveOpts{TimeoutS: timeout, Seed: seed, Dir: smtDir, Workers: 10})
 	solveS := time.Since(tsolve).Seconds()
 
 	replayDir := filepath.Join(*verif, "replays", id)
@@ -130,6 +154,7 @@ func cmdCheck(args []string) int {
 	var knownHit []string
 	var deadReturns []string
 	notClaimedList := map[string]string{}
+	claimOnlySkipped, claimOnlyOpen := map[string]int{}, map[string]int{}
 	bySolver := map[string]int{}
 	var samples []interface{}
 	for _, ob := range c.Obs {
@@ -157,6 +182,18 @@ func cmdCheck(args []string) int {
 			continue
 		}
 		if why, skip := notClaimed(&cfg, ob.Name); skip {
+			if why == cfg.ClaimOnlyWhy && cfg.ClaimOnlyWhy != "" {
+				// aggregated: one line per function
+				fn := ob.Name
+				if i := strings.Index(fn, "#"); i > 0 {
+					fn = fn[:i]
+				}
+				claimOnlySkipped[fn]++
+				if ob.Result != "unsat" {
+					claimOnlyOpen[fn]++
+				}
+				continue
+			}
 			notClaimedList[ob.Name] = why + " [result on this run: " + ob.Result + "]"
 			continue
 		}
@@ -308,6 +345,7 @@ func cmdCheck(args []string) int {
 			"bounded": boundedEv,
 			"paper_steps": cfg.PaperSteps,
 			"not_discharged_not_claimed": notClaimedList,
+			"claim_only": map[string]interface{}{"reason": cfg.ClaimOnlyWhy, "claimed_fragments": cfg.ClaimOnly, "generated_not_claimed": claimOnlySkipped, "of_which_not_discharged": claimOnlyOpen},
 			"known_findings_hit": knownHit,
 			"contract_files": S.Files,
 		},
